@@ -2,11 +2,11 @@ ENGINES = [
     {"name": "E1-crosshair", "path": "vlib/chx.py", "serves_properties": ["C01", "C13", "C17", "C18", "C20"],
      "kind_free_text": "CrossHair (z3) symbolic execution of harness conditions that call toasty's real functions; inductive cuts by stubbing recursive globals / the reducer; counterexamples replayed under plain CPython"},
 ]
-ENGINES.append({"name": "E2-symx-symnp", "path": "vlib/e2.py", "serves_properties": ["C02", "C06", "C08", "C09", "C11", "C12", "C14", "C15", "C16"],
+ENGINES.append({"name": "E2-symx-symnp", "path": "vlib/e2.py", "serves_properties": ["C02", "C06", "C07", "C08", "C09", "C11", "C12", "C14", "C15", "C16"],
      "kind_free_text": "own z3-backed proxy-object symbolic execution (vlib/symx.py) with a lazy symbolic numpy (vlib/symnp.py) patched into toasty's modules; claims proved per path; counterexamples and vacuity twins replayed with real numpy on the solver model's inputs"})
 ENGINES.append({"name": "E3-bmc", "path": "vlib/bmc.py", "serves_properties": ["C01", "C03", "C10", "C19"],
      "kind_free_text": "z3 QF_BV bounded model checking of the process protocols: producer scripts, worker reaction tables and the dispatcher's release table are extracted from the real functions on every run (vlib/mpmodel.py), composed with a trusted model of multiprocessing.Queue/Event/Process; the schedule is a solver variable with a complete step bound; counterexample schedules are replayed on the real entry points and workers under a deterministic thread scheduler"})
-ENGINES.append({"name": "E4-decy-euf", "path": "vlib/decy.py", "serves_properties": ["C04", "C05"],
+ENGINES.append({"name": "E4-decy-euf", "path": "vlib/decy.py", "serves_properties": ["C04", "C05", "C07"],
      "kind_free_text": "fail-closed translation of toasty/_libtoasty.pyx to Python on every run (validated differentially against the compiled extension), executed on symbolic values: trig -> polynomial abstraction (z3 QF_NRA) for _mid, EUF with an uninterpreted commutative midpoint for the subdivision recursion"})
 NOTES = ("Solver-based checking of the real code. Exit 0 = all explored obligations held; inconclusive obligations are printed as INCONCLUSIVE and listed in evidence, never counted as held. "
          "Exit 2 = harness error. known_findings.json lists genuine defects (open / fixed).")
@@ -134,4 +134,11 @@ CHECKS["C17"] = dict(
     technique="CrossHair/z3 on the real PyramidIO path functions with symbolic decimal strings + z3 string theory for injectivity of the recorded URL template + execution of every FitsTiler.tile() directory history with the real WTML writer/parser",
     text="Expanding the template recorded by the real PyramidIO with symbolic (level, x, y) digit strings gives the path _tile_path writes (both schemes); z3 (strings) shows the expansion is injective on decimal strings <= 6 digits; Builder records '.'+format and scheme+format; toast_base records the depth; all 6 histories (fresh / reused / override x TAN / TOAST) return a builder equal to the index_rel.wtml on disk.",
     note="WWT client's template expansion modelled ({1},{2},{3}); tiling work inside FitsTiler.tile() stubbed; tile_levels = deepest populated layer via C08/C09/C06.",
+)
+
+CHECKS["C07"] = dict(
+    engine="E4-decy-euf", ref="DESIGN.md §4.10",
+    technique="z3-backed symbolic execution (symx path exploration) of the decythonised _tile_intersects_latlon_bbox on real tile corners with a symbolic box and on fully symbolic corners under the stated tile hypothesis; of the real chunk-sampler closures with a symbolic sky point; and of the real WcsSampler._image_bounds with a symbolic affine WCS",
+    text="For every real TOAST tile of levels 1..5 (thorough 1..7), both coordinate systems, and EVERY lat/lon box (symbolic origin, width up to 4pi, poles and wrap seam included) the bounding-box test accepts the tile whenever one of its selected pixel centres (or extreme pixel centres of its descendants two levels deeper) is in the box; under hypothesis H it does so for every corner configuration, every longitude order and wrap; the filter never writes to the tile; chunk filters get exactly the chunk rectangle, the chunk grid tiles the map and each chunk sampler accepts exactly the points of its own cells and reads the right cell (all sky points, stated grids); _image_bounds contains the whole footprint for plate-carree WCSs with symbolic scales/parity/reference values at stated sizes and rotations.",
+    note="reals for doubles; H is an assumption about TOAST tile geometry (rejected H-configurations are reported only when a real tile reproduces them); pixel centres for the real-tile obligations are the grid corners, the centre and the latitude / longitude extremes of the real 256x256 grid; non-affine WCS projections (wcslib) are outside the claim; the compiled extension is validated against the .pyx (cannot be rebuilt here).",
 )
